@@ -596,6 +596,37 @@ func (p *Prog) keepRewriteVersionObligations() []Ob {
 		for _, dv := range detected {
 			leaf(dv, 0)
 		}
+		// and only the option decides whether the detected version is kept: with it unset no
+		// comparison of the detected version is reachable
+		if opt := "Version.KeepRewriteVersion"; true {
+			reach := reachableBlocks(fn, func(b *ssa.BasicBlock) []*ssa.BasicBlock { return p.prunedSuccs(b, Assume{opt: false}) })
+			pruned := false
+			for _, b := range fn.Blocks {
+				if iff, ok := terminator(b).(*ssa.If); ok {
+					if name, _ := p.optionField(iff.Cond); name == opt {
+						pruned = true
+					}
+				}
+			}
+			if pruned {
+				for _, b := range fn.Blocks {
+					if !reach[b] {
+						continue
+					}
+					for _, ins := range b.Instrs {
+						bo, ok := ins.(*ssa.BinOp)
+						if !ok || bo.Op != token.EQL {
+							continue
+						}
+						for _, side := range []ssa.Value{bo.X, bo.Y} {
+							if g := globalOf(side); g != nil && g.Pkg != nil && g.Pkg.Pkg.Path() == pkgMessage && typeIs(derefPtr(g.Type()), pkgMessage, "Version") {
+								bad = append(bad, fmt.Sprintf("%s: with KeepRewriteVersion unset the detected version can still decide the version of the rewrite (something other than the option leads here)", p.posStr(bo.Pos())))
+							}
+						}
+					}
+				}
+			}
+		}
 		sort.Strings(bad)
 		if len(bad) > 0 {
 			ob.Status, ob.Msg, ob.Path = Violated, "with KeepRewriteVersion a rewritten segment must keep the format version its file actually has; here the version is taken from configuration, which differs after a reopen with another NewSegmentsVersion", uniqStrings(bad)
@@ -992,6 +1023,29 @@ func ruleR3c(p *Prog) []Ob {
 						continue
 					}
 					o1, o2 := objOf(r1), objOf(l2)
+					if o2 == nil && o1 != nil {
+						// a call of a local closure works on what the closure captured
+						if c, ok := l2.(ssa.CallInstruction); ok {
+							if mc, ok := c.Common().Value.(*ssa.MakeClosure); ok {
+								for _, bnd := range mc.Bindings {
+									if canon(bnd) == o1 {
+										o2 = o1
+									}
+									// captured variables live in a cell: compare what the cell holds
+									if al, ok := bnd.(*ssa.Alloc); ok {
+										for _, st := range allocStores(al) {
+											if canon(st.Val) == o1 {
+												o2 = o1
+											}
+										}
+										if u, ok := o1.(*ssa.UnOp); ok && u.X == ssa.Value(al) {
+											o2 = o1
+										}
+									}
+								}
+							}
+						}
+					}
 					if o1 == nil || o2 == nil || o1 != o2 {
 						continue
 					}
